@@ -346,7 +346,7 @@ def outcomes_for(b, cap, pairs, with_skips=True):
         with open(meta) as fh:
             return read_ndjson(path), json.load(fh)
     outs, abnormal = p2gen.run_runner(b.res["bin"], wd, full, n, entries=entries, skips=skips,
-                                      pairs=pairs, timeout=300)
+                                      pairs=pairs, timeout=90)
     write_ndjson(path, outs)
     m = {"n": n, "alphabet": full, "skips": skips, "entries": entries, "abnormal": abnormal}
     with open(meta, "w") as fh:
